@@ -197,13 +197,16 @@ def main(argv=None):
 
     known, fixed = load_known(prop)
     by_sig = {}
-    for sig, detail, case in merged.violations:
-        by_sig.setdefault(sig, (detail, case))
+    for sig, detail, case in merged.violations:           # sorted: per signature the smallest case first
+        by_sig.setdefault(sig, [])
+        if len(by_sig[sig]) < 6:
+            by_sig[sig].append((detail, case))
     unlisted = 0
     unlisted_sigs = []
+    unconfirmed = []
     seen_known = set()
     for sig in sorted(by_sig):
-        detail, case = by_sig[sig]
+        detail, case = by_sig[sig][0]
         kmatch = sig if sig in known else next((k for k in known if any(ch in k for ch in "*?[") and fnmatch.fnmatchcase(sig, k)), None)
         if kmatch is not None:
             if kmatch in seen_known:
@@ -215,15 +218,32 @@ def main(argv=None):
             continue
         path = write_replay(prop, sig, detail, case, seed)
         if not a.no_confirm:
-            s1 = _replay_sigs_subprocess(prop, path, seed)
-            s2 = _replay_sigs_subprocess(prop, path, seed)
-            if s1 != s2 or sig not in s1:
-                real_out.write(f"HARNESS-NONDETERMINISM property={prop} signature={sig} replay1={s1} replay2={s2}\n")
-                return 2
+            # every reported violation must be a stand-alone replayable artefact: replay the smallest case twice in fresh processes; a case that
+            # deterministically does not fail on its own (it failed only after other cases had run in the same process) is replaced by the next one
+            confirmed = False
+            for detail, case in by_sig[sig]:
+                path = write_replay(prop, sig, detail, case, seed)
+                s1 = _replay_sigs_subprocess(prop, path, seed)
+                s2 = _replay_sigs_subprocess(prop, path, seed)
+                if s1 != s2:
+                    real_out.write(f"HARNESS-NONDETERMINISM property={prop} signature={sig} replay1={s1} replay2={s2}\n")
+                    return 2
+                if sig in s1:
+                    confirmed = True
+                    break
+            if not confirmed:
+                unconfirmed.append(sig)
+                continue
         unlisted += 1
         unlisted_sigs.append(sig)
         real_out.write(f"VIOLATION property={prop} replay={path}\n")
         real_out.write(f"    signature: {sig}\n    detail: {detail}\n")
+    for sig in unconfirmed:
+        real_out.write(f"NOT-REPRODUCED-IN-ISOLATION property={prop} signature={sig} (failed during the exploration, but none of {len(by_sig[sig])} cases fails "
+                       f"when replayed alone in a fresh process: state carried between cases)\n")
+    if unconfirmed and not unlisted:
+        real_out.write(f"HARNESS-NONDETERMINISM property={prop} signatures={unconfirmed}\n")
+        return 2
     stale_known = sorted(set(known) - seen_known)
 
     wall = time.time() - t0
